@@ -21,6 +21,9 @@ type gctx struct {
 	w     *world
 	clean bool // warm-up: only admissible amounts are drawn
 	bare  int  // per-history chance (in 8) that a queue carries no resources at all
+	// capability-only history: queues carry nothing but (sometimes) a capability, so that sums never
+	// decide and chains "no capability ... capability" are moved around
+	capOnly bool
 }
 
 func (g *gctx) state() map[int64]qspec {
@@ -99,6 +102,26 @@ func (g *gctx) genSpecRes(st map[int64]qspec, self, p int64, q *qspec) {
 	r := g.r
 	dims := []int64{}
 	q.cap, q.des, q.guar = rl{}, rl{}, rl{}
+	if g.capOnly {
+		for _, d := range []int64{2, 4} {
+			if !r.Chance(2, 5) {
+				continue
+			}
+			cv := int64(r.Range(1, 16)) * 1000
+			if up, ok := nearestCap(st, p, d); ok {
+				switch k := r.Intn(6); {
+				case k == 0 && !g.clean:
+					cv = up + 1000
+				case k < 3:
+					cv = up
+				default:
+					cv = int64(r.Range(1, int(up/1000))) * 1000
+				}
+			}
+			q.cap = append(q.cap, [2]int64{d, cv})
+		}
+		return
+	}
 	if r.Chance(g.bare, 8) {
 		return
 	}
@@ -274,6 +297,10 @@ func (g *gctx) nextRequest(last *int64) request {
 			id = vh.Pick(r, nr)
 		}
 		q := st[id]
+		if id == 1 && r.Chance(1, 3) && len(nr) > 0 {
+			q.parent = vh.Pick(r, nr) // the root queue given a parent
+			return request{kUpdate, q}
+		}
 		switch r.Intn(6) {
 		case 0: // nothing changes
 		case 1: // shrink one list below what the children need / drop a dimension
@@ -323,7 +350,7 @@ func (g *gctx) nextRequest(last *int64) request {
 		default:
 			q.parent = vh.Pick(r, ex)
 		}
-		if r.Chance(1, 2) {
+		if r.Chance(1, 2) && !(g.capOnly && r.Chance(2, 3)) {
 			g.genSpecRes(st, id, q.parent, &q)
 		}
 		return request{kUpdate, q}
@@ -449,8 +476,14 @@ func gen(rng *vh.Rng, n int, emit func(id string, sel int, in []int64, kind stri
 		{kCreate, qspec{name: 5, parent: 4, cap: cpu(50000)}},
 		{kCreate, qspec{name: 6, parent: 1, cap: cpu(10000)}}, mv(4, 6)}},
 		"fixed-subtree-capability", "fixed/reparent-subtree-capability", emit)
-	// the root queue itself given a parent (last request of the history only, see notes)
-	finish(history{config{5, 0, 1}, []qspec{root, def}, []request{mk(3, 1), mk(4, 3), mv(1, 4)}},
+	// the same two levels down: a(100) <- q <- m <- d(50); p(10); q.parent := p
+	finish(history{config{5, 0, 0}, []qspec{root, def}, []request{
+		{kCreate, qspec{name: 3, parent: 1, cap: cpu(100000)}}, mk(4, 3), mk(7, 4),
+		{kCreate, qspec{name: 5, parent: 7, cap: cpu(50000)}},
+		{kCreate, qspec{name: 6, parent: 1, cap: cpu(10000)}}, mv(4, 6), mv(7, 6), mv(5, 6)}},
+		"fixed-subtree-capability-deep", "fixed/reparent-subtree-capability", emit)
+	// the root queue itself given a parent
+	finish(history{config{5, 0, 1}, []qspec{root, def}, []request{mk(3, 1), mk(4, 3), mv(1, 4), mv(1, 1), mk(5, 4), mv(3, 5)}},
 		"fixed-root-reparent", "fixed/root-given-a-parent", emit)
 
 	for i := 0; i < n; i++ {
@@ -486,6 +519,13 @@ func gen(rng *vh.Rng, n int, emit func(id string, sel int, in []int64, kind stri
 					}
 				}
 				q0 = append(q0, q)
+			}
+		}
+		if kind == "history/from-root" && r.Chance(1, 4) {
+			g.capOnly = true
+			kind = "history/capability-chains"
+			if cfg.maxDepth < 4 {
+				cfg.maxDepth = 5
 			}
 		}
 		g.w = newWorld(cfg, q0)
